@@ -665,6 +665,12 @@ func (f *lkFn) call(c *ast.CallExpr, held map[string]bool) {
 		f.block(fl.Body.List, lkCopy(held))
 		return
 	}
+	// a notification of the gossip watcher: `<recv>.watcher.On…(…)` inside pkg/gossip
+	if se, ok := c.Fun.(*ast.SelectorExpr); ok && f.p.dir == "pkg/gossip" && strings.HasPrefix(se.Sel.Name, "On") {
+		if inner, ok := se.X.(*ast.SelectorExpr); ok && inner.Sel.Name == "watcher" {
+			f.emit(lkEvent{kind: "notify", field: se.Sel.Name, held: lkKeys(held), where: f.pos(c)})
+		}
+	}
 	cs, ext, cb := f.resolve(c)
 	switch {
 	case cb != "":
@@ -1343,6 +1349,8 @@ type lkResult struct {
 	regs      map[string][]string
 	unguarded []string
 	guardBy   map[string]string
+	// watcher notifications of pkg/gossip: "<function>:<callback>" with / without gossip.mu held
+	notifyLocked, notifyUnlocked []string
 }
 
 func lkAnalyse() *lkResult {
@@ -1604,6 +1612,26 @@ func lkAnalyse() *lkResult {
 		}
 	}
 	res.unguarded = lkKeys(ung)
+	nl, nu := map[string]bool{}, map[string]bool{}
+	for _, k := range fkeys {
+		for _, e := range w.events[k] {
+			if e.kind != "notify" {
+				continue
+			}
+			ok := entry[k]["gossip.mu"]
+			for _, h := range e.held {
+				if h == "gossip.mu" {
+					ok = true
+				}
+			}
+			if ok {
+				nl[short(k)+":"+e.field] = true
+			} else {
+				nu[fmt.Sprintf("%s:%s (%s)", short(k), e.field, e.where)] = true
+			}
+		}
+	}
+	res.notifyLocked, res.notifyUnlocked = lkKeys(nl), lkKeys(nu)
 	res.guardBy = map[string]string{}
 	for k, l := range w.guardBy {
 		if mutable[k] {
@@ -1679,6 +1707,9 @@ func lockFacts() string {
 		b.WriteString("def callbacksUnderClusterMu : Option (List String) := none\n")
 		b.WriteString("def callbacksUnderLock : Option (List (String × String)) := none\n")
 		b.WriteString("def unguardedAccesses : Option (List String) := none\n")
+		b.WriteString("def watcherNotifyLocked : Option (List String) := none\n")
+		b.WriteString("def watcherNotifyUnlocked : Option (List String) := none\n")
+		b.WriteString("def watcherCallbacksLocked : Option (List String) := none\n")
 		return b.String()
 	}
 	for _, e := range r.edges {
@@ -1726,6 +1757,17 @@ func lockFacts() string {
 	}
 	b.WriteString("-- accesses to a guarded field at a point where its mutex is not held (lexically, or at every call site of the unexported function)\n")
 	fmt.Fprintf(&b, "def unguardedAccesses : Option (List String) := some %s\n", lkStrList(r.unguarded))
+	b.WriteString("-- watcher notifications (`….watcher.On…(…)` in pkg/gossip) made while gossip.mu is held (lexically, or at every\n")
+	b.WriteString("-- call site of the unexported function): state change and notification are one atomic step (C14)\n")
+	fmt.Fprintf(&b, "def watcherNotifyLocked : Option (List String) := some %s\n", lkStrList(r.notifyLocked))
+	cbs := map[string]bool{}
+	for _, x := range r.notifyLocked {
+		cbs[x[strings.LastIndex(x, ":")+1:]] = true
+	}
+	b.WriteString("-- the callbacks among them\n")
+	fmt.Fprintf(&b, "def watcherCallbacksLocked : Option (List String) := some %s\n", lkStrList(lkKeys(cbs)))
+	b.WriteString("-- ... and those made at a point where gossip.mu is not held\n")
+	fmt.Fprintf(&b, "def watcherNotifyUnlocked : Option (List String) := some %s\n", lkStrList(r.notifyUnlocked))
 	for _, n := range r.notes {
 		fmt.Fprintf(&b, "--   note: %s\n", n)
 	}
